@@ -659,6 +659,9 @@ func sweepFunctions(prog *Program) []*ssa.Function {
 		if !ok || fn.Synthetic != "" || fn.Name() == "init" {
 			continue
 		}
+		if os.Getenv("GOCV_DEBUG_ENTRY") != "" {
+			fmt.Fprintf(os.Stderr, "ENTRY %s contract=%v entry=%v\n", prog.relName(fn), prog.contractFor(fn) != nil, prog.isEntryPoint(fn))
+		}
 		if prog.contractFor(fn) == nil && !prog.isEntryPoint(fn) {
 			// an unexported helper or local closure that is only ever called directly is
 			// covered where it is inlined into its callers, with their actual arguments
